@@ -210,6 +210,12 @@ def handleS (args : List String) : String :=
   | ["vecasync", items] => (parseItems items).elim "bad-op" (fun l => showSeq (seqFilterMap gVec (l.map (·.1))))
   | ["flatten", groups] =>
     ((groups.splitOn "|").mapM parseItems).elim "bad-op" (fun l => showSeq (flattenStreams l))
+  | ["buffered", k, items] =>
+    match k.toNat?, parseItems items with
+    | some k, some l =>
+      let cs := chunks k l
+      if cs.isEmpty then "-" else "|".intercalate (cs.map showSeq)
+    | _, _ => "bad-op"
   | ["count", items] => (parseItems items).elim "bad-op" (fun l => toString (drainCount l))
   | [_, items] => (parseItems items).elim "bad-op" showSeq     -- collect / next / sync / async: identity
   | _ => "bad-op"
